@@ -56,7 +56,7 @@ MIN_COUNTERS = {
 
 
 def plan(tier, seed):
-    total, parts, secs = (40000, 12, 35) if tier == 'quick' else (800000, 16, 540)
+    total, parts, secs = (40000, 12, 35) if tier == 'quick' else (3000000, 16, 540)
     return [{'name': f'sig{p}', 'mode': 'nrt', 'kind': 'sig', 'first_case': f,
              'n': n, 'secs': secs, 'hard_timeout': secs + 150}
             for p, (f, n) in enumerate(split(total, parts))]
